@@ -400,7 +400,15 @@ def derived_packages(rng, pa, n):
             elif c == 6 and flags:
                 d["use"] = [f for f in d["iuse"] if rng.random() < 0.5]
             elif c == 7:
-                if rng.random() < 0.5:
+                r7 = rng.random()
+                if r7 < 0.3:
+                    # same name up to letter case (names are case-sensitive)
+                    field = "package" if r7 < 0.2 else "category"
+                    pos = [i for i, ch in enumerate(d[field]) if ch.isalpha()]
+                    if pos:
+                        for i in rng.sample(pos, rng.randrange(1, len(pos) + 1)):
+                            d[field] = d[field][:i] + d[field][i].swapcase() + d[field][i + 1:]
+                elif r7 < 0.65:
                     d["package"] = rng.choice(ga.PACKAGES)
                 else:
                     d["category"] = rng.choice(ga.CATEGORIES)
